@@ -3,6 +3,7 @@
 from __future__ import annotations
 
 import copy
+import os
 from collections import Counter
 
 from hgmon import core, families, gen, ref, rt
@@ -90,14 +91,19 @@ def rerun_overwrite(name, sync_val, o):
     cur = o.values.get(name)
     if cur == sync_val:
         return False
-    failing = [e[1].rsplit("/", 1)[-1] for e in o.rec.ev[last_i:] if e[0] == "raise"]
+    def top_node(path):
+        # the node of the TOP-LEVEL graph an event belongs to (a body inside a nested graph counts as its wrapper)
+        parts = path.split("/")
+        return parts[1] if len(parts) > 1 else parts[0]
+
+    failing = [top_node(e[1]) for e in o.rec.ev[last_i:] if e[0] == "raise"]
     writers = []
     for e in o.rec.ev[last_i:]:
         if e[0] == "exit":
             ts = []
             terms_in(e[2], ts)
             if e[2] == cur or cur in ts:
-                writers.append(e[1].rsplit("/", 1)[-1])
+                writers.append(top_node(e[1]))
     if not failing or not writers:
         return False
     fpos = min(order.index(f) for f in failing if f in order) if any(f in order for f in failing) else None
@@ -297,7 +303,7 @@ def run(ctx):
     if ctx.shard[0] == 0:
         returned_object_kinds(ctx)
     for i in range(n):
-        fam = families.pick(ctx.rng, ["dag", "dag-fallback", "gated", "loop", "waitdag", "waitdag", "rewait", "lateclosed", "nested-entry", "early-shared"])
+        fam = families.pick(ctx.rng, ["dag", "dag-fallback", "gated", "loop", "waitdag", "waitdag", "rewait", "lateclosed", "nested-entry", "early-shared", "compose", "compose"] if not os.environ.get("HGMON_ONLY_FAMILY") else [os.environ["HGMON_ONLY_FAMILY"]])
         spec, inputs, kw = fam["spec"], fam["inputs"], fam.get("kw", {})
         _one(ctx, fam, spec, inputs, kw, None)
         # one failing node per program (error collected)
